@@ -103,6 +103,13 @@ type ledger struct {
 func newLedger() *ledger { return &ledger{m: map[string]map[mon.PosKey]*ref.Image{}} }
 
 func (l *ledger) put(db string, p mon.PosKey, img *ref.Image) {
+	// The ledger maps a position to the image with that position's checksum. A
+	// writer whose commit step failed without an error it can see (WAL commits
+	// happen at unlock) still believes in its new image while the node stays at
+	// the old position: never file an image under a checksum it does not have.
+	if p.TXID != 0 && img.Checksum() != p.Chk {
+		return
+	}
 	l.mu.Lock()
 	defer l.mu.Unlock()
 	if l.m[db] == nil {
